@@ -150,7 +150,7 @@ def conv_cases(ck):
         torch.manual_seed(ck.seed * 13 + t)
         log = []
         kw = dict(in_dim=4 if dims == 2 else 3, device="cpu", channels=C, num_kernels=K, tree_depth=depth,
-                  receptive_field_size=rf if len(set(rfs)) == 1 else tuple(rfs), connections="random-unique")
+                  receptive_field_size=rfs[0] if len(set(rfs)) == 1 else tuple(rfs), connections="random-unique")
         case = {"scheme": "conv-random-unique", "dims": dims, "rf": rfs, "channels": C, "depth": depth, "kernels": K}
         try:
             with record_draws(log):
